@@ -15,6 +15,7 @@ var commands = map[string]func([]string){
 	"cfgs":    cmdCfgs,
 	"c14gen":  cmdC14Gen,
 	"c19":     cmdC19,
+	"c13":     cmdC13,
 	"c14rand": cmdC14Rand,
 	"c07stress": cmdC07Stress,
 }
